@@ -79,3 +79,47 @@ func H_C14_group_files_hold_what_was_written_in_order() {
 	verifReach("read-back")
 	verifAssert(bytes.Equal(got, want), "files-in-index-order-hold-exactly-what-was-written")
 }
+
+// The contract of GroupReader.Read the WAL decoder relies on (and the torn-record harness in package
+// consensus assumes of its reader): over one or two files holding arbitrary bytes, a Read into a
+// buffer of 1..4 bytes either fills the buffer (nil error) or returns fewer bytes TOGETHER with a
+// non-nil error (io.EOF after the newest file) - never a silent short read - and the bytes delivered
+// over successive reads are the files' bytes in index order, across the file boundary.
+//verif:opt unwind=40 budget_s=600 split=6
+func H_C14_group_reader_fills_the_buffer_or_reports() {
+	dir := "/verif-model-wal2"
+	if !verifSymbolic() {
+		d, err := ioutil.TempDir("", "verif-c14r")
+		if err != nil {
+			panic(err)
+		}
+		defer os.RemoveAll(d)
+		dir = d
+	}
+	nfiles := 1 + verifCase(2)
+	head := &AutoFile{ID: "h", Path: dir + "/wal"}
+	g := &Group{ID: "g", Head: head, Dir: dir, minIndex: 0, maxIndex: nfiles - 1}
+	var all []byte
+	for i := 0; i < nfiles; i++ {
+		b := verifNondetBytes(verifCase(4))
+		if err := ioutil.WriteFile(stub_c14g_path(head.Path, i, nfiles-1), b, 0600); err != nil {
+			panic(err)
+		}
+		all = append(all, b...)
+	}
+	gr := &GroupReader{Group: g}
+	var got []byte
+	for k := 0; k < 4; k++ {
+		p := make([]byte, 1+verifCase(4))
+		n, err := gr.Read(p)
+		verifAssert(n >= 0 && n <= len(p), "count-within-the-buffer")
+		verifAssert((n == len(p)) == (err == nil), "buffer-filled-or-an-error-reported-with-the-short-read")
+		got = append(got, p[:n]...)
+		if err != nil {
+			verifReach("reader-ended")
+			break
+		}
+	}
+	gr.Close()
+	verifAssert(len(got) <= len(all) && bytes.Equal(got, all[:len(got)]), "bytes-delivered-are-the-files-bytes-in-index-order")
+}
